@@ -17,10 +17,17 @@ CHECKS = {
     "C06": ("5/C06", "generated polygons/circles/ellipses x near-boundary/aligned in-plane points vs crossing number and quadratic-form oracles"),
     "C07": ("5/C07", "generated hulls, shuffled faces (sort_faces) and triangulated facets (merge_faces) vs brute-force facet/edge/neighbour structure"),
     "C08": ("5/C08", "reflection-enumerated setters x generated targets: read-back, similarity of defining data, coherence with a fresh shape; bad targets refused atomically"),
+    "C09": ("5/C09", "metamorphic: every reflection-enumerated observable of g.x (rotation x translation x scale 1e-3..1e3 x relabelling) vs the transformation rule applied to x"),
     "C10": ("5/C10", "generated radii/axes/centres (ties, near-ties, needle/disc) vs 40-digit mpmath closed forms (E, Carlson R_G) validated by quadrature"),
     "C11": ("5/C11", "generated convex cores x rounding radii vs Steiner polynomials built from the exact core oracles and an edge/exterior-angle mean curvature"),
+    "C12": ("5/C12", "generated shapes x wave vectors (generic, special directions, approach sequences, batch sizes) vs exact Fourier integral by divided differences of exp; conjugation/translation/density/batch relations"),
+    "C13": ("5/C13", "shapes tangential/cyclic/both/neither by construction vs validity predicates: exact smallest enclosing ball (brute force), centred balls, tangency/equidistance, existence by least-squares misfit"),
+    "C14": ("5/C14", "generated circles/ellipses/convex polygons/spheropolygons x angle arrays (any reals, vertex and axis directions) vs ray-boundary intersection from the exact centroid (bisection for rounded shapes)"),
+    "C15": ("5/C15", "generated valid/invalid constructor inputs with margins (crossings, off-plane, duplicates, interior points, bad radii) vs exact classification; aliasing of caller arrays probed by mutating them afterwards"),
+    "C16": ("5/C16", "exhaustive ordered pairs (q1,q2) of the reflection-enumerated query alphabet on 13 base shapes; untouched-twin comparison, handed-out arrays, argument arrays, repeatability"),
     "C17": ("5/C17", "generated/grid parameters vs half-space intersection from symmetry-generated planes (cross-checked with scipy HalfspaceIntersection); exhaustive n=3..200 for uniform families"),
     "C18": ("5/C18", "complete enumeration of the 290 tabulated entries vs hand-entered textbook counts, brute-force facets, regularity and insphere predicates"),
+    "C19": ("5/C19", "generated shapes and hand-built GSD dicts: gsd/repr/to_json round trips and to_hoomd judged by rebuilding the shape from the returned data with the harness oracles"),
     "C20": ("5/C20", "generated polyhedra exported in 7 formats and read back by independent strict parsers; STL tiling/orientation predicates; export leaves observables unchanged"),
 }
 NOT_APPLICABLE = {}
